@@ -118,3 +118,34 @@ VARIANTS += [
     ("C06-delta-swapped", "C06", IV, "precise_diff(_start, _end)", "precise_diff(_end, _start)", "INTERVAL.delta"),
     ("C06-backend-missing", "C06", HELP, "    from pendulum._helpers import week_day\n", "    week_day = None\n", "BACKEND.names"),
 ]
+
+ISO = "src/pendulum/parsing/iso8601.py"
+RSP = "rust/src/parsing.rs"
+RSHH = "rust/src/helpers.rs"
+FMT = "src/pendulum/formatting/formatter.py"
+PARSER = "src/pendulum/parser.py"
+PARSING = "src/pendulum/parsing/__init__.py"
+VARIANTS += [
+    ("C07-clean", "C07", None, "", "", None),
+    ("C07-py-strict", "C07", ISO, "if ordinal <= months_offsets[i]:", "if ordinal < months_offsets[i]:", "CUMSEARCH.forward"),
+    ("C07-py-day-offset", "C07", ISO, "day = ordinal - months_offsets[i - 1]", "day = ordinal - months_offsets[i]", "CUMSEARCH.forward"),
+    ("C07-rs-strict", "C07", RSP, "if ord <= MONTHS_OFFSETS[leap][i] {", "if ord < MONTHS_OFFSETS[leap][i] {", "CUMSEARCH.forward"),
+    ("C07-rs-month", "C07", RSP, "let month = (i - 1) as u32;", "let month = i as u32;", "CUMSEARCH.forward"),
+    ("C07-py-local-ge", "C07", PYH, "        if day > month_offset:", "        if day >= month_offset:", "CUMSEARCH.backward"),
+    ("C07-rs-local-ge", "C07", RSHH, "        if day > month_offset {", "        if day >= month_offset {", "CUMSEARCH.backward"),
+    ("C07-py-week-formula", "C07", ISO, "ordinal = week * 7 + weekday - (week_day(year, 1, 4) + 3)", "ordinal = week * 7 + weekday - (week_day(year, 1, 4) + 4)", "WEEKDATE.formula"),
+    ("C07-rs-week-formula", "C07", RSP, "(week_day(iso_year as i32, 1, 4) as i32 + 3)", "(week_day(iso_year as i32, 1, 3) as i32 + 3)", "WEEKDATE.formula"),
+    ("C07-py-week-guard", "C07", ISO, "    if weekday > 7:", "    if weekday > 8:", "WEEKDATE.guards"),
+    ("C07-rs-week-guard", "C07", RSP, "if iso_week > 53 || iso_week > 52 && !is_long_year(iso_year as i32) {", "if iso_week > 53 {", "WEEKDATE.guards"),
+    ("C07-py-wrap", "C07", ISO, "        ordinal += days_in_year(year - 1)\n", "        ordinal += days_in_year(year)\n", "WEEKDATE.wrap"),
+    ("C07-rs-wrap", "C07", RSP, "            ord -= days_in_year(y as i32) as i32;\n            y += 1;", "            ord -= days_in_year(y as i32) as i32;", "WEEKDATE.wrap"),
+    ("C07-py-fraction-pad", "C07", ISO, 'microsecond = int(f"{subsecond:0<6}")', 'microsecond = int(f"{subsecond:0>6}")', "FRACTION"),
+    ("C07-rs-fraction-7", "C07", RSP, "                        // Expand missing microsecond\n                        while i < 6 {\n                            datetime.microsecond *= 10;\n                            i += 1;\n                        }\n                    }\n\n                    if !datetime.extended_date_format", "                        // Expand missing microsecond\n                        while i < 5 {\n                            datetime.microsecond *= 10;\n                            i += 1;\n                        }\n                    }\n\n                    if !datetime.extended_date_format", "FRACTION"),
+    ("C07-py-offset-sign", "C07", ISO, '            negative = bool(tz.startswith("-"))', '            negative = bool(tz.startswith("+"))', "OFFSET.parse"),
+    ("C07-fmt-offset-clone", "C07", FMT, "            offset = ((int(off_hour) * 60) + int(off_minute)) * 60", "            offset = ((int(off_hour) * 60) + int(off_minute)) * 6", "OFFSET.parse"),
+    ("C07-rs-offset", "C07", RSP, "            tzminute += tzhour * 60;", "            tzminute += tzhour * 6;", "OFFSET.parse"),
+    ("C07-rs-offset-sign", "C07", RSP, "let tzsign = if self.current == '+' { 1 } else { -1 };", "let tzsign = if self.current == '-' { 1 } else { -1 };", "OFFSET.parse"),
+    ("C07-parser-swap", "C07", PARSER, "            parsed.minute,\n            parsed.second,\n            parsed.microsecond,\n            tz=parsed.tzinfo", "            parsed.second,\n            parsed.minute,\n            parsed.microsecond,\n            tz=parsed.tzinfo", "RECON.slot"),
+    ("C07-normalize-date", "C07", PARSING, "        return datetime(parsed.year, parsed.month, parsed.day)", "        return datetime(parsed.year, parsed.day, parsed.month)", "RECON.slot"),
+    ("C07-exact", "C07", PARSING, '    if options.get("exact"):\n        return parsed\n', '    if options.get("exact") and False:\n        return parsed\n', "EXACT"),
+]
